@@ -167,16 +167,25 @@ def build_frame(t):
             # an encoding that comes from outside (a camera, an upload) may be a single-channel JPEG although the frame is
             # declared a colour frame: it decodes to the declared shape all the same
             jpg = jpg_of(pattern(h, w, 1, t.get('seed', 0)) if ch == 3 and t.get('seed', 0) == 4 else px)
-            x = Frame.from_jpg(blob_of(jpg, t['blob']), data, h, w, fmt)
+            if t.get('seed', 0) in (1, 3) and jpg[2:4] == b'\xff\xe0':
+                # a JPEG without the JFIF APP0 segment (camera / MJPEG style): SOI followed directly by the tables
+                jpg = jpg[:2] + jpg[4 + int.from_bytes(jpg[4:6], 'big'):]
+            if t.get('seed', 0) in (2, 3) and t['blob'] in ('bytes', 'bytearray'):
+                # the same frame made by Frame.from_blob (an upload): with the dimensions (lazy) or without them (decoded at once)
+                x = Frame.from_blob(blob_of(jpg, t['blob']), data, *((h, w) if kind != 'jpgdec' else (None, None)), fmt)
+            else:
+                x = Frame.from_jpg(blob_of(jpg, t['blob']), data, h, w, fmt)
             if kind == 'jpgdec':
                 _ = x.image
             # what the frame's image is: the decoding of its jpg to the declared shape (reference decode, not the frame's own)
             info['px'] = decode_ref(jpg, ch == 1)
     # the encoding that already exists: the blob the frame was made from (ground truth, not what x.jpg says now),
     # or - for a frame that encoded itself earlier - what x.jpg returned
-    existing = (jpg if kind in ('jpgonly', 'jpgdec') else bytes(x.jpg)) if x.has_jpg else None
+    existing = jpg if kind in ('jpgonly', 'jpgdec') else (bytes(x.jpg) if x.has_jpg else None)
     info.update(has_image=bool(x.has_image), has_jpg=bool(x.has_jpg), has_raw=bool(x.has_raw), h=x.height, w=x.width,
                 fmt=x.format, shape=x.shape, data=copy.deepcopy(x.data), is_rw=x.is_rw, jpg=existing)
+    if kind in ('jpgonly', 'jpgdec'):
+        info['has_jpg'] = True        # ground truth: the frame was made from a JPEG encoding, whatever it says of itself
     return x, info
 
 
@@ -522,6 +531,8 @@ def selftest():
         infos['main']['has_image'] = False
 
     def flip_jpg(infos):
+        if infos['main']['jpg'] is None:
+            raise MachineryError('self-test: the jpg-backed frame of the self-test holds no jpg')
         infos['main']['jpg'] = infos['main']['jpg'][:-3] + b'\x00' + infos['main']['jpg'][-2:]
 
     def far_px(infos):
